@@ -10,6 +10,7 @@
 -/
 import Upnp.Lemmas.C20Igd
 import Upnp.Lemmas.C20Counters
+import Upnp.Lemmas.C20Float
 import Upnp.Gen.C20Igd
 namespace Upnp.C20
 open Upnp PyDict
@@ -281,6 +282,62 @@ theorem rate_spec (isBytes : Bool) (tNow tLast : Int) (cur last : Val) :
     refine ⟨⟨(c - l) * 1000000, (if isBytes then 1024 else 1) * (tNow - tLast)⟩, by simp [derive, h], rfl, rfl,
       Int.mul_nonneg (by omega) (by omega), ?_⟩
     cases isBytes <;> simp <;> omega
+
+/-- **The float the code computes is within the judge's tolerance of `rate_spec`'s exact value.**
+    `dv = current − last ≥ 0`, `K` = 1024 (bytes) or 1, `mu` = elapsed microseconds.  The code
+    evaluates `(dv / K) / total_seconds()`: `dv / K` is exact (`dv < 2^53`, `K` a power of two),
+    `total_seconds() = tp/tq` is the correctly rounded `mu / 10^6` (`hT`), the result `rp/rq` is
+    the correctly rounded quotient of the two (`hR`); `rounded` = within relative 2^-53, which
+    IEEE-754 round-to-nearest guarantees for normal doubles.  Then `approx` (relative 2^-50
+    around `dv·10^6 / (K·mu)`, the fraction `rate_spec` gives) accepts the result. -/
+theorem float_rate_within_tolerance (dv K mu tp tq rp rq : Int)
+    (hdv : 0 ≤ dv) (hK : 0 < K) (hmu : 0 < mu) (htq : 0 < tq) (htp : 0 < tp) (hrq : 0 < rq)
+    (hrp : 0 ≤ rp) (hT : rounded tp tq mu 1000000) (hR : rounded rp rq (dv * tq) (K * tp)) :
+    approx ⟨rp, rq⟩ (dv * 1000000) (K * mu) = true := by
+  obtain ⟨hT1, hT2⟩ := hT
+  obtain ⟨hR1, hR2⟩ := hR
+  have hKtp : 0 < K * tp := Int.mul_pos hK htp
+  have two : ∀ x y : Int, pow2_50 * x ≤ y → pow2_50 * (-x) ≤ y → (x.natAbs : Int) * pow2_50 ≤ y := by
+    intro x y h1 h2
+    simp only [pow2_50] at *
+    omega
+  simp only [approx, hrq, hrp, decide_true, Bool.true_and, decide_eq_true_eq]
+  apply two
+  all_goals
+    by_cases h0 : dv = 0
+    · subst h0
+      have hp : rp * (K * tp) = 0 := by
+        simp only [pow2_53] at hR1 hR2
+        omega
+      have : rp = 0 := by
+        rcases Int.mul_eq_zero.mp hp with h | h
+        · exact h
+        · omega
+      subst this
+      simp [pow2_50]
+  all_goals
+    have hdv' : 0 < dv := by omega
+    have hu : 0 < tp * 1000000 := by omega
+    have hq : 0 < dv * tq * rq := Int.mul_pos (Int.mul_pos hdv' htq) hrq
+    have huq : 0 < tp * 1000000 * (dv * tq * rq) := Int.mul_pos hu hq
+    have hid : rp * (K * tp) * (dv * 1000000 * rq) * (mu * tq)
+        = rp * (K * mu) * (tp * 1000000) * (dv * tq * rq) := by grind
+    have key := rel_compose pow2_53 pow2_50 (by decide) (by decide) (by decide)
+      (tp * 1000000) (mu * tq) (rp * (K * tp)) (dv * tq * rq) (rp * (K * mu)) (dv * 1000000 * rq)
+      (Int.mul_pos hmu htq) (Int.le_of_lt hq)
+      (Int.mul_nonneg (Int.mul_nonneg hdv (by decide)) (Int.le_of_lt hrq)) hT1 hT2 hR1 hR2 hid
+  · have := Int.le_of_mul_le_mul_right key.1 huq
+    grind
+  · have := Int.le_of_mul_le_mul_right key.2 huq
+    grind
+
+/-- non-vacuity: 1000 bytes in 3.000001 s — `total_seconds()` and the quotient as Python computes
+    them (`float.as_integer_ratio`), both inexact, satisfy `rounded`; the result is accepted. -/
+example :
+    rounded 3377700846427779 1125899906842624 3000001 1000000
+    ∧ rounded 2932030030059323 9007199254740992 (1000 * 1125899906842624) (1024 * 3377700846427779)
+    ∧ approx ⟨2932030030059323, 9007199254740992⟩ (1000 * 1000000) (1024 * 3000001) = true := by
+  refine ⟨by unfold rounded; decide, by unfold rounded; decide, by decide⟩
 
 /-- the first sample of a fresh profile carries no rate -/
 theorem first_sample_no_rates (t0 t : Int) (r : Readings) (s : Sample)
